@@ -79,10 +79,15 @@ func (as *AccountSummary) Withdraw(amt sdkmath.Int) error {
 
 // WithdrawableUnlockedBalance returns withdrawable unlocked balance of a subaccount
 func (as *AccountSummary) WithdrawableUnlockedBalance(unlockedBalance, bankBalance sdkmath.Int) sdkmath.Int {
+	// unlockedBalance is the total of all balances whose unlock time has passed, it never shrinks when
+	// tokens are withdrawn. What has already left the subaccount (WithdrawnAmount) must be subtracted,
+	// otherwise every further call releases the same unlocked amount again out of the still locked balance.
+	unlockedRemaining := sdkmath.MaxInt(sdkmath.ZeroInt(), unlockedBalance.Sub(as.WithdrawnAmount))
+
 	// calculate withdrawable balance, which is the minimum between the available balance, and
-	// what has been unlocked so far. Also, it cannot be greater than the bank balance.
+	// what has been unlocked so far and not withdrawn yet. Also, it cannot be greater than the bank balance.
 	// Available reports the deposited amount - spent amount - lost amount - withdrawn amount.
-	return sdkmath.MinInt(sdkmath.MinInt(as.Available(), unlockedBalance), bankBalance)
+	return sdkmath.MinInt(sdkmath.MinInt(as.Available(), unlockedRemaining), bankBalance)
 }
 
 // WithdrawableBalance returns total (unlocked and locked) withdrawable balance of a subaccount
